@@ -170,6 +170,8 @@ def run(tier):
     # accept/reject decision of the receiving chain needs (trace-validated real runs with forced exchanges)
     from harness import c03
     c03.pt_part(ck, tier, unforced=True)
+    from harness import c08
+    c08.pairs_part(ck, tier)            # every outcome of the pairing strategy proposes disjoint pairs (TightPairs.tla replayed)
     from harness import c09
     c09.kernel_after_reload_part(ck, tier)
     c03.dtype_part(ck, tier)        # whole-number inputs given as integer arrays: same kernel, same trajectory
